@@ -3,6 +3,9 @@ mod m3;
 mod gen;
 mod proj;
 mod m5;
+mod sched;
+mod m6;
+mod m7;
 mod util;
 use util::*;
 
@@ -21,6 +24,16 @@ fn main() {
         ("c12", Some(p)) => m5::replay(&args, "C12", p),
         ("c13", Some(p)) => m5::replay(&args, "C13", p),
         ("c16", Some(p)) => m5::replay(&args, "C16", p),
+        ("c02", None) => m6::run(&args, "C02"),
+        ("c03", None) => m6::run(&args, "C03"),
+        ("c04s", None) => m6::run(&args, "C04"),
+        ("c05", None) => m6::run(&args, "C05"),
+        ("c02", Some(p)) => m6::replay(&args, "C02", p),
+        ("c03", Some(p)) => m6::replay(&args, "C03", p),
+        ("c04s", Some(p)) => m6::replay(&args, "C04", p),
+        ("c05", Some(p)) => m6::replay(&args, "C05", p),
+        ("c04f", None) => m7::run_c04f(&args),
+        ("c04f", Some(p)) => m5::replay(&args, "C04", p),
         (other, _) => {
             eprintln!("unknown command {other}");
             std::process::exit(2);
